@@ -230,6 +230,14 @@ pub fn check_render(rep: &mut Rep, fmt: &Fmt, c: i128, s: TimeScale, off_min: i3
                 match guard(|| (f.parse(&out), Epoch::from_format_str(&out, &ftxt), Epoch::from_str_with_format(&out, f))) {
                     Err(p) => rep.fail(&format!("parse-back/panic/{}", p.class()), None, || format!("{}: parsing its own output {:?} panicked: {} at {}", det(), out, p.msg, p.loc)),
                     Ok((a, b, c3)) => {
+                        if std::env::var("VERIF_F24_STATS").is_ok() {
+                            let okk = |r: &Result<Epoch, hifitime::HifitimeError>| matches!(r, Ok(g) if g.time_scale == TimeScale::UTC && count_d(g.duration) == c);
+                            let all = okk(&a) && okk(&b) && okk(&c3);
+                            let sh = all_shapes(fmt);
+                            if sh.len() <= 1 {
+                                rep.class(&format!("f24stats/{}/{}", if sh.is_empty() { "none".to_string() } else { sh.join("+") }, if all { "ok" } else { "fail" }));
+                            }
+                        }
                         for (name, r) in [("Format::parse", a), ("from_format_str", b), ("from_str_with_format", c3)] {
                             match r {
                                 Ok(g) => {
@@ -262,7 +270,11 @@ pub fn unsupported_shape(fmt: &Fmt) -> Option<&'static str> {
         let (t, sep, _) = &fmt.items[i];
         let last = i + 1 == n;
         if !last && sep.is_empty() {
-            return Some("zero-separator-junction");
+            // (a numeric field directly followed by the time scale reads back: the scale name starts with a letter)
+            let numeric = !matches!(*t, "%A" | "%a" | "%B" | "%b" | "%T" | "%z");
+            if !(numeric && fmt.items[i + 1].0 == "%T") {
+                return Some("zero-separator-junction");
+            }
         }
         if *t == "%z" && i > 0 && !fmt.items[i - 1].1.is_empty() {
             return Some("offset-preceded-by-separator");
@@ -277,14 +289,61 @@ pub fn unsupported_shape(fmt: &Fmt) -> Option<&'static str> {
             return Some("weekday-name-followed-by-T-separator");
         }
         let is_name = |x: &str| matches!(x, "%A" | "%a" | "%B" | "%b");
-        if is_name(t) && last {
+        // (round 6: the two name shapes were narrowed to the sub-classes that actually fail on the pinned tree - measured
+        // over 3 * 10^5 single-shape formats with VERIF_F24_STATS - because a regression inside a listed shape is masked:
+        // weekday names read back when they are the last token; a name after two separators reads back when the second
+        // separator is a blank or equals the name's own separator)
+        if matches!(*t, "%B" | "%b") && last {
             return Some("name-token-last");
         }
         if is_name(t) && i > 0 && fmt.items[i - 1].1.chars().count() == 2 {
-            return Some("name-preceded-by-two-separators");
+            let second = fmt.items[i - 1].1.chars().nth(1).unwrap();
+            let own = sep.chars().next();
+            if second != ' ' && own != Some(second) {
+                return Some("name-preceded-by-two-separators");
+            }
         }
     }
     None
+}
+
+/// every shape a format matches (development aid for refining the F24 predicate: VERIF_F24_STATS)
+pub fn all_shapes(fmt: &Fmt) -> Vec<String> {
+    let n = fmt.items.len();
+    let mut v: Vec<String> = vec![];
+    let is_name = |x: &str| matches!(x, "%A" | "%a" | "%B" | "%b");
+    for i in 0..n {
+        let (t, sep, _) = &fmt.items[i];
+        let last = i + 1 == n;
+        if !last && sep.is_empty() {
+            let nx = fmt.items[i + 1].0;
+            v.push(format!("zero-sep[{}{}]", if is_name(t) { "name" } else if *t == "%T" { "T" } else if *t == "%z" { "z" } else { "num" }, if is_name(nx) { "name" } else if nx == "%T" { "T" } else if nx == "%z" { "z" } else { "num" }));
+        }
+        if *t == "%z" && i > 0 && !fmt.items[i - 1].1.is_empty() {
+            v.push("z-after-sep".into());
+        }
+        if *t == "%T" && !last {
+            v.push("T-not-last".into());
+        }
+        if *t == "%z" && !last {
+            v.push("z-not-last".into());
+        }
+        if matches!(*t, "%A" | "%a") && sep.starts_with('T') {
+            v.push("weekday-then-T".into());
+        }
+        if is_name(t) && last {
+            let pv = if i > 0 { fmt.items[i - 1].1.clone() } else { "^".to_string() };
+            v.push(format!("name-last[{t},prev-sep-len={},prev-blank-last={}]", pv.chars().count(), pv.ends_with(' ')));
+        }
+        if is_name(t) && i > 0 && fmt.items[i - 1].1.chars().count() == 2 {
+            let pv: Vec<char> = fmt.items[i - 1].1.chars().collect();
+            let own = sep.chars().next().unwrap_or('$');
+            v.push(format!("name-after-two[second-blank={},own==second={}]", pv[1] == ' ', own == pv[1]));
+        }
+    }
+    v.sort();
+    v.dedup();
+    v
 }
 
 pub fn check_to_time_scale(rep: &mut Rep, fmt: &Fmt, c: i128, s: TimeScale, s2: TimeScale) {
